@@ -243,9 +243,13 @@ def system_add(pid):
     return c
 
 
+XK = z3.Const('xk', K)
+
+
 def find_or_add(pid):
     """DeviceFinder.find_or_add: entry by entry -- a valid existing idx is kept; otherwise the device already linked to the
-    same target is used; otherwise one is created through System.add with that link and recorded."""
+    same target is used; otherwise one is created through System.add with that link and recorded -- and is found by the entries
+    that follow (the lookup relation is updated by every creation: a helper is created at most once per target)."""
     VALID = z3.Function('is_existing_idx', K, Bo)          # ghost: mdl.find_idx('idx', (x,)) finds x
     LINKED = z3.Function('device_linked_to', K, K)         # ghost: result of mdl.find_idx(idx_name, (link,))
     HASLINK = z3.Function('has_device_linked_to', K, Bo)
@@ -258,7 +262,8 @@ def find_or_add(pid):
             return st.new_ref(ListC([MaybeNone(z3.Not(VALID(x)), Opaque(x))]), 'found')
         ex.oblige(st, 'pre@call:find_idx:searched-by-the-link-field-for-this-entry\'s-target',
                   z3.And(z3.BoolVal(key == 'link'), x == st.content(st.load('self.link.v')).arr[st.env['ii']]), {})
-        return st.new_ref(ListC([MaybeNone(z3.Not(HASLINK(x)), Opaque(LINKED(x)))]), 'found')
+        has, lk = st.ghost['haslink'], st.ghost['linked']         # the relation as it is NOW (creations included)
+        return st.new_ref(ListC([MaybeNone(z3.Not(has[x]), Opaque(lk[x]))]), 'found')
 
     def sys_add(ex, st, args, kw, node):
         d = st.content(args[1]).items if isinstance(args[1], Ref) else {}
@@ -268,14 +273,32 @@ def find_or_add(pid):
                   z3.And(z3.BoolVal(ok), to_z3(d.get('link', 0)) == link) if ok else z3.BoolVal(False), {})
         r = fresh('created', K)
         st.ghost['created'] = z3.Store(st.ghost['created'], r, z3.BoolVal(True))
+        st.ghost['dup'] = z3.Or(st.ghost['dup'], st.ghost['haslink'][link])
+        st.ghost['haslink'] = z3.Store(st.ghost['haslink'], link, z3.BoolVal(True))
+        st.ghost['linked'] = z3.Store(st.ghost['linked'], link, r)
         return Opaque(r)
 
     def resolved(v, j):
         u, ln, out = v.arr('self.u.v'), v.arr('self.link.v'), v.arr('self.v')
         cr = v.st.ghost['created']
+        has, lk = v.st.ghost['haslink'], v.st.ghost['linked']
+        # a non-valid entry ends up with THE device linked to its target (pre-existing, or created by this call -- once)
         return z3.Or(z3.And(VALID(u.arr[j]), out.arr[j] == u.arr[j]),
-                     z3.And(z3.Not(VALID(u.arr[j])), HASLINK(ln.arr[j]), out.arr[j] == LINKED(ln.arr[j])),
-                     z3.And(z3.Not(VALID(u.arr[j])), z3.Not(HASLINK(ln.arr[j])), cr[out.arr[j]]))
+                     z3.And(z3.Not(VALID(u.arr[j])), has[ln.arr[j]], out.arr[j] == lk[ln.arr[j]],
+                            z3.Or(z3.And(HASLINK(ln.arr[j]), lk[ln.arr[j]] == LINKED(ln.arr[j])),
+                                  z3.And(z3.Not(HASLINK(ln.arr[j])), cr[out.arr[j]]))))
+
+    def once(v):
+        # a device is only ever created for a target that has none at that moment
+        return z3.Not(v.st.ghost['dup'])
+
+    def rel(v):
+        # targets that had a device keep it; new entries of the relation come from creations
+        has, lk = v.st.ghost['haslink'], v.st.ghost['linked']
+        x = fresh('x', K)
+        cr = v.st.ghost['created']
+        return z3.ForAll([x], z3.And(z3.Implies(HASLINK(x), z3.And(has[x], lk[x] == LINKED(x))),
+                                     z3.Implies(z3.And(has[x], z3.Not(HASLINK(x))), cr[lk[x]])))
 
     def inv(v):
         ii = v.local('$i0')
@@ -295,20 +318,71 @@ def find_or_add(pid):
                          'self.u.owner.class_name': TStr(), 'self.u.name': TStr(), 'self.owner.class_name': TStr(),
                          'self.owner.idx.v': TSeq(elem=K), 'system.$mdl2.name': TStr()},
                  requires=[('same-length', lambda v: v.arr('self.u.v').n == v.arr('self.link.v').n)],
-                 ghost_init={'created': z3.K(K, z3.BoolVal(False))},
+                 ghost_init={'created': z3.K(K, z3.BoolVal(False)), 'dup': z3.BoolVal(False),
+                             'haslink': lambda v: z3.Lambda([XK], HASLINK(XK)), 'linked': lambda v: z3.Lambda([XK], LINKED(XK))},
                  calls={'__contains__': lambda ex, st, a, k, n: fresh('known', Bo),
                         '__objdict__': lambda ex, st, a, k, n: Obj('system.$mdl'),
                         '__getitem__': lambda ex, st, a, k, n: Obj('system.$mdl2'),
                         'system.$mdl.find_idx': find_idx, 'system.add': sys_add,
                         'system.$mdl2.list2array': spec(name='list2array'), 'system.$mdl2.refresh_inputs': spec(name='refresh_inputs'),
                         'system.link_ext_param': spec(name='link_ext_param')},
-                 loops={0: Loop(inv=[('entries-before-ii-resolved;rest-untouched', inv)],
-                                frame=['loc:self.v', 'ghost:created', '$link_to', '$idx', '$valid_idx', '$added', '$ii'])},
-                 ensures=[('every-entry:valid-kept/else-linked-device/else-created-with-that-link', post)],
+                 loops={0: Loop(inv=[('entries-before-ii-resolved;rest-untouched', inv), ('created-only-for-targets-without-a-device', once),
+                                     ('existing-links-kept', rel)],
+                                frame=['loc:self.v', 'ghost:created', 'ghost:dup', 'ghost:haslink', 'ghost:linked', '$link_to', '$idx',
+                                       '$valid_idx', '$added', '$ii'])},
+                 ensures=[('every-entry:valid-kept/else-the-device-linked-to-its-target(existing-or-created-once)', post),
+                          ('no-second-helper-for-a-target', lambda o, n, r: once(n))],
                  raises={'ValueError': [('unknown-model-or-group', lambda o, n, e: True)]},
                  modifies=['self.v'])
     c.check_bounds = False
     return c
+
+
+def replay_find_or_add(obligation, model, meta):
+    """native run of the real DeviceFinder.find_or_add on a stub system: several referrers sharing one target, without and with a
+    pre-existing helper, must end up linked to one and the same helper on that target"""
+    from types import SimpleNamespace
+    from andes.core.service import DeviceFinder
+    for pre_existing in (False, True):
+        devices = {}              # helper idx -> link target
+
+        class Helper:
+            def find_idx(self, keys, values, allow_none=False, default=None, allow_all=False):
+                out = []
+                vals = values[0] if isinstance(values[0], (list, tuple)) else [values[0]]
+                for val in vals:
+                    hit = [i for i, tgt in devices.items() if (i if keys == 'idx' else tgt) == val]
+                    out.append(hit[0] if hit else default)
+                return out
+        helper = Helper()
+        if pre_existing:
+            devices['H0'] = 'bus4'
+
+        def add(model, param_dict):
+            idx = 'H%d' % (len(devices) + 10)
+            devices[idx] = param_dict['link']
+            return idx
+        system = SimpleNamespace(models={'Helper': helper}, groups={}, add=add, link_ext_param=lambda *a, **k: None, __dict__=None)
+        system.__dict__.update({'Helper': helper})
+        helper.name = 'Helper'
+        helper.list2array = lambda *a, **k: None
+        helper.refresh_inputs = lambda *a, **k: None
+        owner = SimpleNamespace(class_name='Owner', idx=SimpleNamespace(v=[1, 2, 3]))
+        u = SimpleNamespace(v=[None, None, None], owner=owner, name='busf', model='Helper')
+        link = SimpleNamespace(v=['bus4', 'bus4', 'bus7'])
+        df = DeviceFinder(u, link=link, idx_name='link', default_model='Helper')
+        df.owner = owner
+        df.find_or_add(system)
+        per_target = {}
+        for idx, tgt in devices.items():
+            per_target.setdefault(tgt, []).append(idx)
+        ok = (len(df.v) == 3 and df.v[0] == df.v[1] and devices.get(df.v[0]) == 'bus4' and devices.get(df.v[2]) == 'bus7'
+              and all(len(v) == 1 for v in per_target.values()) and (not pre_existing or df.v[0] == 'H0'))
+        if not ok:
+            return {'confirmed': True, 'inputs': {'u.v': [None, None, None], 'link.v': link.v, 'helper already on bus4': pre_existing},
+                    'observed': 'referrers linked to %r; helpers per target %r' % (list(df.v), per_target),
+                    'native_cmd': 'DeviceFinder.find_or_add(stub system)'}
+    return {'confirmed': False, 'tried': 2}
 
 
 def set_backref_model(pid):
